@@ -109,6 +109,8 @@ pub fn c06_alphabet() -> Vec<(&'static str, Sym)> {
         ("announce A previous-instance token", Sym::Cmd(0, "ann 1 1112 previous")),
         ("announce A 19-byte token", Sym::Cmd(0, "ann 1 1113 short")),
         ("announce A token-of-A plus one byte", Sym::Cmd(0, "ann 1 1114 plus")),
+        // the same contact as the valid announce (a renewal attempt) with a forged token
+        ("re-announce A same contact, forged token", Sym::Cmd(0, "ann 1 1111 random")),
         ("advance 9m59s", Sym::Advance(599_000)),
         ("advance 10m01s", Sym::Advance(601_000)),
         ("advance 30m", Sym::Advance(1_800_000)),
